@@ -1980,28 +1980,34 @@ def withAllow (code : Nat) (h : Dic) : Dic := if code = 405 then setHeader h sAl
 /-- `serve(Socket)` reads the connection again unless HTTP/1.0 without keep-alive, or `Connection: close` -/
 def keepOf (q : Request) : Bool := !((q.proto = sHttp10 && connValue q != sKeepAlive) || connValue q = sClose)
 
-/-- the one answer after which the server itself ends the connection: an unframed stream to an HTTP/1.0 request (687f097) -/
-def NotClosedByStream (q : Request) (p : Plan) : Prop := q.proto = sHttp10 → ∀ parts, p.kind ≠ .streamAuto parts
+/-- the answers after which the server itself ends the connection: a response written in pieces that names no framing, with
+a status that can have a body, to an HTTP/1.0 request (687f097: the end of the connection ends the message) -/
+def closesAfter (q : Request) (p : Plan) : Bool :=
+  match p.kind with
+  | .streamAuto _ => endByClose (respProto q) p.code (handlerHeaders q p)
+  | .streamFile _ _ => endByClose (respProto q) p.code (handlerHeaders q p)
+  | _ => false
 
 theorem endByClose_11 (code : Nat) (h : Dic) : endByClose sHttp11 code h = false := by
   unfold endByClose
   have : (sHttp11 == sHttp10) = false := by decide
   simp [this]
 
-theorem serveOne_keep (blk rblk : Nat) (opt : Bool) (q : Request) (p : Plan) (js base : Bytes) (hns : NotClosedByStream q p) :
-    (serveOne blk rblk opt q p js base).keep = keepOf q := by
+/-- the connection is kept exactly when the request allows it and the answer is not one that ends with the connection -/
+theorem serveOne_keep (blk rblk : Nat) (opt : Bool) (q : Request) (p : Plan) (js base : Bytes)
+    (hopt : ¬ (q.method = sOPTIONS ∧ opt = true)) :
+    (serveOne blk rblk opt q p js base).keep = (keepOf q && !closesAfter q p) := by
+  unfold serveOne keepOf closesAfter respProto handlerHeaders baseHeaders connValue
+  simp only [hopt, if_false]
+  cases hk : p.kind with
+  | streamAuto parts => simp only []
+  | streamFile pre content => simp only []
+  | _ => simp only [Bool.not_false, Bool.and_true] <;> (repeat' split) <;> simp
+
+theorem serveOne_keep_options (blk rblk : Nat) (q : Request) (p : Plan) (js base : Bytes) (hm : q.method = sOPTIONS) :
+    (serveOne blk rblk true q p js base).keep = keepOf q := by
   unfold serveOne keepOf connValue
-  simp only []
-  by_cases h : q.method = sOPTIONS ∧ opt = true
-  · simp [h]
-  · simp only [h, if_false]
-    cases hk : p.kind with
-    | streamAuto parts =>
-      simp only []
-      by_cases h10 : q.proto = sHttp10
-      · exact absurd hk (hns h10 parts)
-      · simp only [h10, if_false, endByClose_11]; simp
-    | _ => simp only [] <;> (repeat' split) <;> rfl
+  simp [hm]
 
 theorem serveOne_called (blk rblk : Nat) (opt : Bool) (q : Request) (p : Plan) (js base : Bytes) :
     (serveOne blk rblk opt q p js base).called = !(decide (q.method = sOPTIONS) && opt) := by
@@ -2034,9 +2040,17 @@ theorem serveOne_none (blk rblk : Nat) (opt : Bool) (q : Request) (p : Plan) (js
   rfl
 
 theorem serveOne_stream (blk rblk : Nat) (opt : Bool) (q : Request) (p : Plan) (js base : Bytes) (parts : List Bytes) (fin : Bool)
-    (hopt : ¬ (q.method = sOPTIONS ∧ opt = true)) (hk : p.kind = .stream parts fin) :
+    (hopt : ¬ (q.method = sOPTIONS ∧ opt = true)) (hk : p.kind = .stream parts fin) (hne : parts.isEmpty = false) :
     (serveOne blk rblk opt q p js base).wire =
       serializeStream blk (respProto q) p.code (setHeader (handlerHeaders q p) sTransferEncoding sChunked) parts fin := by
+  unfold serveOne
+  simp only [hopt, if_false, hk, hne, Bool.false_eq_true]
+  rfl
+
+theorem serveOne_streamAuto (blk rblk : Nat) (opt : Bool) (q : Request) (p : Plan) (js base : Bytes) (parts : List Bytes)
+    (hopt : ¬ (q.method = sOPTIONS ∧ opt = true)) (hk : p.kind = .streamAuto parts) :
+    (serveOne blk rblk opt q p js base).wire =
+      serializeStream blk (respProto q) p.code (handlerHeaders q p) parts false := by
   unfold serveOne
   simp only [hopt, if_false, hk]
   rfl
